@@ -67,7 +67,7 @@ def compare(case, r, out):
     if case["family"] != "sampler": return R.compare(case, r, out)
     if not r or "vals" not in r: return "implementation failed: %s" % json.dumps(r)[:300]
     toks = out.split()
-    if toks[0].startswith("FAULT"): return "model: " + out
+    if any(t.startswith(("FAULT", "OUTOFFUEL")) for t in toks): return "sampler %s%r: model %s (the implementation consumed %d uniforms)" % (case["dist"], case["params"], [t for t in toks if t.startswith(("FAULT", "OUTOFFUEL"))][0], r.get("pos", -1))
     mv, mpos = toks[:-2], int(toks[-1])
     if mpos != r["pos"]: return "sampler %s: model consumed %d uniforms, implementation %d" % (case["dist"], mpos, r["pos"])
     for a, b in zip(mv, r["vals"]):
